@@ -6,6 +6,10 @@
 import Peppi.Lemmas.C08
 import Peppi.Lemmas.C08File
 import Peppi.Lemmas.C05Long
+import Peppi.Lemmas.GenFile
+import Peppi.Lemmas.GenInst
+import Peppi.Lemmas.GenCor
+import Peppi.Lemmas.GenExample
 set_option linter.unusedVariables false
 namespace Peppi.Props.C08
 
@@ -50,5 +54,59 @@ theorem C05_start_long (T : TextOracle) (b : Bytes) (hL : 760 ≤ b.length) :
 theorem C05_end_long (b : Bytes) (hL : 6 ≤ b.length) :
     gameEnd b = match specEnd 6 b b with | .ok e => .ok { e with bytes := b } | .err e => .err e | .panic p => .panic p :=
   _root_.Peppi.C05_end_long b hL
+
+/- from `Peppi.Lemmas.GenFile` -/
+open Extracted in
+theorem readP_gen (T : TextOracle) (f : GFile) (s : Start) (psF : ParseState) (h : f.WF T s psF) :
+    ∃ ge : Option End, f.fend.map gameEnd = ge.map Res.ok ∧
+      readP T {} f.encode =
+        .ok (gameOf ({ psF.st with fend := ge } : PState).closed f.metadata (dgeOf s.version f.extra none), []) :=
+  _root_.Peppi.readP_gen T f s psF h
+
+/- from `Peppi.Lemmas.GenInst` -/
+open Extracted in
+theorem readP_irregular (T : TextOracle) (r : Replay) (s : Start) (gk : Option GeckoBlocks) (i : Irr) (h : i.OK T r s gk) :
+    ∃ ge : Option End, r.fend.map gameEnd = ge.map Res.ok ∧
+      readP T {} (r.fileIrr s gk i).encode = .ok (r.gameAny s ge gk, []) :=
+  _root_.Peppi.readP_irregular T r s gk i h
+
+/- from `Peppi.Lemmas.GenCor` -/
+open Extracted in
+theorem C08_any (T : TextOracle) (r : Replay) (s : Start) (gk : Option GeckoBlocks) (i : Irr) (h : i.OK T r s gk) :
+    readSlp T { skipFrames := false, computeHash := false } (r.fileIrr s gk i).encode =
+      readSlp T { skipFrames := false, computeHash := false } (r.encodeAny s.version (portOccupancy s) gk) :=
+  _root_.Peppi.C08_any T r s gk i h
+
+/- from `Peppi.Lemmas.GenExample` -/
+open Extracted in
+theorem exampleIrr_A :
+    (exIrr (startOf (exBlock 3 16 760)).version (portOccupancy (startOf (exBlock 3 16 760)))
+      (exFrames [-123, -122, -122] 17 32 2 16 1 true) []).OK T0
+      (exReplay (exBlock 3 16 760) (exFrames [-123, -122, -122] 17 32 2 16 1 true) [2, 255, 0, 1, 255, 255]) (startOf (exBlock 3 16 760)) none :=
+  _root_.Peppi.exampleIrr_A 
+
+/- from `Peppi.Lemmas.GenExample` -/
+open Extracted in
+theorem exampleIrr_B :
+    (exIrr (startOf (exBlock 2 2 418)).version (portOccupancy (startOf (exBlock 2 2 418)))
+      (exFrames [-123, -122, -122] 16 23 1 0 0 false) []).OK T0
+      (exReplay (exBlock 2 2 418) (exFrames [-123, -122, -122] 16 23 1 0 0 false) [2, 255]) (startOf (exBlock 2 2 418)) none :=
+  _root_.Peppi.exampleIrr_B 
+
+/- from `Peppi.Lemmas.GenExample` -/
+open Extracted in
+theorem exampleIrr_C :
+    (exIrr (startOf (exBlock 1 0 352)).version (portOccupancy (startOf (exBlock 1 0 352)))
+      (exFrames [-123, -122, -121] 14 12 1 0 0 false) []).OK T0
+      (exReplay (exBlock 1 0 352) (exFrames [-123, -122, -121] 14 12 1 0 0 false) [2]) (startOf (exBlock 1 0 352)) none :=
+  _root_.Peppi.exampleIrr_C 
+
+/- from `Peppi.Lemmas.GenExample` -/
+open Extracted in
+theorem exampleIrr_G :
+    (exIrr (startOf (exBlock 3 16 760)).version (portOccupancy (startOf (exBlock 3 16 760)))
+      (exFrames [-123, -122, -122] 17 32 2 16 1 true) []).OK T0
+      (exReplay (exBlock 3 16 760) (exFrames [-123, -122, -122] 17 32 2 16 1 true) [2, 255, 0, 1, 255, 255]) (startOf (exBlock 3 16 760)) (some exGecko) :=
+  _root_.Peppi.exampleIrr_G 
 
 end Peppi.Props.C08
